@@ -19,7 +19,6 @@ package main
 
 import (
 	"fmt"
-	"net"
 	"os"
 	"sort"
 	"strings"
@@ -29,6 +28,7 @@ import (
 	"github.com/miekg/dns"
 	"github.com/semihalev/sdns/config"
 	"github.com/semihalev/sdns/internal/authority"
+	icache "github.com/semihalev/sdns/internal/cache"
 	"github.com/semihalev/sdns/internal/verif/l3"
 	"github.com/semihalev/sdns/internal/verif/vlib"
 	"github.com/semihalev/sdns/middleware/cache"
@@ -62,9 +62,13 @@ type inst struct {
 	withdrawn   bool          // the parent no longer publishes THIS incarnation's delegation
 	withdrawnAt time.Duration // virtual
 
-	hasBound bool
-	bound    time.Duration // latest permissible end of any lease granted for this incarnation (virtual, absolute)
-	ownEnd   time.Duration // observation + min(NS, DS, 12 h) of the referral that set `bound`
+	// Oracle bounds, per lineage: [0] resolution with validation (CD=0 bucket:
+	// the referral's DS set is retained, so its TTL counts), [1] CD=1 bucket
+	// (no DS set is ever retained there; the lease is the NS TTL).
+	hasBound [2]bool
+	bound    [2]time.Duration // latest permissible end of any lease granted for this incarnation (virtual, absolute)
+	ownEnd   [2]time.Duration // observation + min(NS, DS, 12 h) of the referral that set `bound`
+	ubound   [2]time.Duration // the same bound computed WITHOUT the 12 h ceiling (diagnosis only)
 	refs     int
 
 	mu   sync.Mutex
@@ -97,6 +101,22 @@ type scenario struct {
 	prevAbs  map[uint64]time.Duration
 	prevRefs map[uint64]int
 	queries  int
+	prefetch int
+}
+
+// grantOver12h: every incarnation of the zone is delegated with min(NS, DS) TTL ≥ 12 h,
+// i.e. the 12 h ceiling (not the TTLs) decided its stored lease.
+func (s *scenario) grantOver12h(zone string, lin int) bool {
+	for _, i := range s.named(zone) {
+		l := i.nsTTL
+		if i.signed && lin == 0 && i.dsTTL < l {
+			l = i.dsTTL
+		}
+		if time.Duration(l)*time.Second < ceiling {
+			return false
+		}
+	}
+	return true
 }
 
 var cur *scenario
@@ -168,9 +188,9 @@ var chainNames = []string{"test.", "vic.test.", "deep.vic.test."}
 func marker(idx, gen, n int) string { return fmt.Sprintf("10.%d.%d.%d", idx, gen, n) }
 
 func (s *scenario) addInst(idx, gen int, parent *inst, nsTTL, dsTTL uint32, signed bool, hostMode string) *inst {
-	name := chainNames[idx-1]
-	if idx == 9 {
-		name = "host.test."
+	name := "host.test."
+	if idx != 9 {
+		name = chainNames[idx-1]
 	}
 	i := &inst{name: name, idx: idx, gen: gen, parent: parent, kids: map[string]*inst{}, nsTTL: nsTTL, dsTTL: dsTTL, signed: signed, mode: "honest"}
 	opts := l3.ZoneOpts{Signed: signed, PublishDS: signed, NSTTL: nsTTL, DSTTL: dsTTL}
@@ -188,6 +208,16 @@ func (s *scenario) addInst(idx, gen int, parent *inst, nsTTL, dsTTL uint32, sign
 	}
 	i.z = s.w.AddZone(name, opts)
 	i.srv = i.z.Servers[len(i.z.Servers)-1]
+	if signed && i.z.Keys[0].Key.KeyTag() == 0 {
+		// miekg refuses to sign with key tag 0 (the l3 server would panic): take another key
+		for i.z.Keys[0].Key.KeyTag() == 0 {
+			i.z.Keys[0] = l3.NewKey(name, 257, dns.ECDSAP256SHA256)
+		}
+		i.z.Records[name][dns.TypeDNSKEY] = []dns.RR{i.z.Keys[0].Key}
+		dsrr := i.z.Keys[0].Key.ToDS(dns.SHA256)
+		dsrr.Hdr.Ttl = dsTTL
+		s.w.Delegation(name).DS = []dns.RR{dsrr}
+	}
 	i.z.SOA.Serial = uint32(1000*idx + gen + 1)
 	i.z.SOA.Minttl = s.negttl
 	i.z.SOA.Hdr.Ttl = s.negttl
@@ -338,6 +368,7 @@ func execNew(f []string) vlib.Res {
 	s.attl = uint32(vlib.AtoU64(get("attl", "300")))
 	s.negttl = uint32(vlib.AtoU64(get("neg", "300")))
 	pf := vlib.Atoi(get("pf", "0"))
+	s.prefetch = pf
 	qmin := vlib.Atoi(get("qmin", "0"))
 	for len(ns) < depth {
 		ns = append(ns, 300)
@@ -349,6 +380,10 @@ func execNew(f []string) vlib.Res {
 		sg += "0"
 	}
 	s.w = l3.NewWorld(s.dnssec)
+	for s.dnssec && s.w.Root.Keys[0].Key.KeyTag() == 0 {
+		s.w.Close()
+		s.w = l3.NewWorld(s.dnssec)
+	}
 	s.root = &inst{name: ".", idx: 0, kids: map[string]*inst{}, z: s.w.Root, srv: s.w.Root.Servers[0], mode: "honest"}
 	s.byIP[s.root.srv.IP.String()] = s.root
 	s.hook(s.root)
@@ -359,7 +394,7 @@ func execNew(f []string) vlib.Res {
 		// never be retained. Keep "DS present" = "DS retained" (see notes/C08.md).
 		signed = signed && sg[k-1] == '1'
 		if s.oob && k == 2 {
-			s.host = s.addInst(9, 0, parent, 3600, 3600, signed && false, "new")
+			s.host = s.addInst(9, 0, parent, 3600, 3600, false, "new")
 		}
 		i := s.addInst(k, 0, parent, ns[k-1], ds[k-1], signed, "new")
 		s.names = append(s.names, i.name)
@@ -402,23 +437,44 @@ func (s *scenario) absorb(now time.Duration) {
 	recs := s.pending
 	s.pending = nil
 	s.refMu.Unlock()
-	sort.SliceStable(recs, func(a, b int) bool { return recs[a].to.idx%9 < recs[b].to.idx%9 })
+	sort.SliceStable(recs, func(a, b int) bool { return dns.CountLabel(recs[a].to.name) < dns.CountLabel(recs[b].to.name) })
 	for _, r := range recs {
-		l := time.Duration(r.nsTTL) * time.Second
-		if r.hasDS && s.dnssec {
-			l = minDur(l, time.Duration(r.dsTTL)*time.Second)
-		}
-		l = minDur(l, ceiling)
-		own := now + l
-		cand := own
-		if r.from.idx != 0 && r.from.hasBound {
-			cand = minDur(cand, r.from.bound)
-		}
 		r.to.refs++
-		if !r.to.hasBound || cand > r.to.bound {
-			r.to.hasBound, r.to.bound, r.to.ownEnd = true, cand, own
+		for lin := 0; lin < 2; lin++ {
+			l := time.Duration(r.nsTTL) * time.Second
+			if r.hasDS && s.dnssec && lin == 0 {
+				l = minDur(l, time.Duration(r.dsTTL)*time.Second)
+			}
+			l = minDur(l, ceiling)
+			own := now + l
+			cand := own
+			if r.from.idx != 0 && r.from.hasBound[lin] {
+				cand = minDur(cand, r.from.bound[lin])
+			}
+			ul := time.Duration(r.nsTTL) * time.Second
+			if r.hasDS && s.dnssec && lin == 0 {
+				ul = minDur(ul, time.Duration(r.dsTTL)*time.Second)
+			}
+			ucand := now + ul
+			if r.from.idx != 0 && r.from.hasBound[lin] {
+				ucand = minDur(ucand, r.from.ubound[lin])
+			}
+			if !r.to.hasBound[lin] || ucand > r.to.ubound[lin] {
+				r.to.ubound[lin] = ucand
+			}
+			if !r.to.hasBound[lin] || cand > r.to.bound[lin] {
+				r.to.hasBound[lin], r.to.bound[lin], r.to.ownEnd[lin] = true, cand, own
+			}
 		}
 	}
+}
+
+// bucket tells which CD partition of the delegation cache an entry lives in.
+func bucket(e authority.VerifC08Entry) int {
+	if e.Key == icache.Key(dns.Question{Name: e.Zone, Qtype: dns.TypeNS, Qclass: dns.ClassINET}, true) {
+		return 1
+	}
+	return 0
 }
 
 // audit judges the stored delegation leases.
@@ -446,25 +502,26 @@ func (s *scenario) audit() string {
 			refs += c.refs
 		}
 		abs := now + rem
+		lin := bucket(e)
 		if rem > 0 {
 			if rem > ceiling+slack {
 				fail(fmt.Sprintf("FAIL sig=l3/lease/exceeds-12h zone=%s rem=%s", zone, rem))
 			}
 			var best *inst
 			for _, c := range cands {
-				if c.hasBound && (best == nil || c.bound > best.bound) {
+				if c.hasBound[lin] && (best == nil || c.bound[lin] > best.bound[lin]) {
 					best = c
 				}
 			}
 			switch {
 			case best == nil:
 				fail(fmt.Sprintf("FAIL sig=l3/lease/stored-without-parent-referral zone=%s rem=%s", zone, rem))
-			case abs > best.bound+slack:
+			case abs > best.bound[lin]+slack:
 				why := "exceeds-ancestor-lease"
-				if abs > best.ownEnd+slack {
+				if abs > best.ownEnd[lin]+slack {
 					why = "exceeds-min-ns-ds-ttl"
 				}
-				fail(fmt.Sprintf("FAIL sig=l3/lease/%s zone=%s cd=%v rem=%s allowed=%s", why, zone, e.CD, rem, best.bound-now))
+				fail(fmt.Sprintf("FAIL sig=l3/lease/%s zone=%s cdbucket=%d nds=%d rem=%s allowed=%s", why, zone, lin, e.NDS, rem, best.bound[lin]-now))
 			}
 			if prev, ok := s.prevAbs[e.Key]; ok && abs > prev+slack && s.prevRefs[e.Key] == refs {
 				fail(fmt.Sprintf("FAIL sig=l3/lease/extended-without-parent-referral zone=%s by=%s", zone, abs-prev))
@@ -474,19 +531,21 @@ func (s *scenario) audit() string {
 		s.prevRefs[e.Key] = refs
 	}
 	// exact (no slack needed: both values are stored absolute deadlines): a live
-	// delegation never outlives a live delegation for one of its ancestors
+	// delegation never outlives a live delegation for one of its ancestors.
+	// Only judged on a strictly sequential pipeline (no background refresh):
+	// two concurrent resolutions may store the same ancestor in either order.
 	for _, e := range entries {
-		if !time.Now().Before(e.ExpiresAt) {
+		if s.prefetch != 0 || !time.Now().Before(e.ExpiresAt) {
 			continue
 		}
 		for _, a := range entries {
-			if a.Key == e.Key || a.CD != e.CD || !time.Now().Before(a.ExpiresAt) {
+			if a.Key == e.Key || bucket(a) != bucket(e) || !time.Now().Before(a.ExpiresAt) {
 				continue
 			}
 			az, ez := lcn(a.Zone), lcn(e.Zone)
 			if az != ez && dns.IsSubDomain(az, ez) && e.ExpiresAt.After(a.ExpiresAt) {
 				d := e.ExpiresAt.Sub(a.ExpiresAt)
-				if time.Until(a.ExpiresAt) > ceiling-time.Minute && d < time.Minute {
+				if s.grantOver12h(az, bucket(a)) && s.grantOver12h(ez, bucket(e)) && d < time.Minute {
 					fail(fmt.Sprintf("FAIL sig=l3/lease/descendant-outlives-ancestor/ceiling-reanchored zone=%s ancestor=%s by=%s", ez, az, d))
 				} else {
 					fail(fmt.Sprintf("FAIL sig=l3/lease/descendant-outlives-ancestor zone=%s ancestor=%s by=%s", ez, az, d))
@@ -569,6 +628,10 @@ func execQuery(s *scenario, f []string) vlib.Res {
 	}
 	s.quiesce()
 	vq := s.vnow()
+	lin := 0
+	if fl.CD {
+		lin = 1
+	}
 	resp := s.p.Query(f[2], qt, fl)
 	s.queries++
 	verdict := "ok"
@@ -590,13 +653,17 @@ func execQuery(s *scenario, f []string) vlib.Res {
 				// "once the parent withdraws or changes the delegation … everything learned
 				// through the old delegation has stopped being served by [the lease end]"
 				for a := o; a != nil; a = a.parent {
-					if a.withdrawn && a.hasBound && vq >= a.bound+slack && stale == "" {
+					if a.withdrawn && a.hasBound[lin] && vq >= a.bound[lin]+slack && stale == "" {
 						rel := "self"
 						if a != o {
 							rel = "deeper"
 						}
+						if vq < a.ubound[lin] {
+							// the lease ended only because of the 12 h ceiling; the NS/DS TTLs alone would still run
+							rel += "/only-12h-ceiling"
+						}
 						stale = fmt.Sprintf("FAIL sig=l3/reply/stale-%s/%s q=%s/%s from=%s#%d lease-of=%s#%d ended=%s ago rr=%q",
-							kind, rel, lcn(f[2]), f[3], o.name, o.gen, a.name, a.gen, (vq - a.bound).Round(time.Millisecond), strings.Join(strings.Fields(rr.String()), " "))
+							kind, rel, lcn(f[2]), f[3], o.name, o.gen, a.name, a.gen, (vq - a.bound[lin]).Round(time.Millisecond), strings.Join(strings.Fields(rr.String()), " "))
 					}
 				}
 			}
@@ -631,16 +698,20 @@ func execL3(f []string) vlib.Res {
 		// advance to the (old) delegation's lease end as the oracle computes it, plus delta
 		s.quiesce()
 		s.absorb(s.vnow())
+		lin := 0
+		if len(f) > 4 && f[4] == "cd" {
+			lin = 1
+		}
 		var target *inst
 		for _, i := range s.named(f[2]) {
-			if i.hasBound && (target == nil || (i.withdrawn && !target.withdrawn) || (i.withdrawn == target.withdrawn && i.gen > target.gen)) {
+			if i.hasBound[lin] && (target == nil || (i.withdrawn && !target.withdrawn) || (i.withdrawn == target.withdrawn && i.gen > target.gen)) {
 				target = i
 			}
 		}
 		if target == nil {
 			return vlib.Res{Impl: "nolease", Oracle: s.audit(), Tags: "l3"}
 		}
-		d := target.bound + time.Duration(vlib.AtoI64(f[3]))*time.Millisecond - s.vnow()
+		d := target.bound[lin] + time.Duration(vlib.AtoI64(f[3]))*time.Millisecond - s.vnow()
 		if d > 0 {
 			s.p.Advance(d)
 		}
@@ -713,7 +784,37 @@ func (s *scenario) markWithdrawn(i *inst) {
 var leaseTTLs = []int{1, 2, 3, 5, 10, 30, 60, 300, 3600, 43199, 43200}
 var longTTLs = []int{43201, 86400, 172800}
 
-func allowCeilingGap() bool { return os.Getenv("VERIF_C08_CEILING") == "1" }
+// allowCeilingGap: delegations whose NS/DS TTLs exceed the 12 h ceiling are only
+// generated when asked for (VERIF_C08_CEILING=1) or once the candidate finding
+// they expose on the unchanged tree (notes/C08.md) is listed in known_findings.jsonl.
+var ceilingOnce sync.Once
+var ceilingOn bool
+
+func allowCeilingGap() bool {
+	ceilingOnce.Do(func() {
+		switch os.Getenv("VERIF_C08_CEILING") {
+		case "1":
+			ceilingOn = true
+			return
+		case "0":
+			return
+		}
+		dir := os.Getenv("VERIF_DIR")
+		if dir == "" {
+			dir = "/verif"
+		}
+		b, err := os.ReadFile(dir + "/known_findings.jsonl")
+		if err != nil {
+			return
+		}
+		for _, ln := range strings.Split(string(b), "\n") {
+			if strings.Contains(ln, "\"C08\"") && strings.Contains(ln, "only-12h-ceiling") && strings.Contains(ln, "\"known\"") {
+				ceilingOn = true
+			}
+		}
+	})
+	return ceilingOn
+}
 
 func pickTTL(r *vlib.R) int {
 	if allowCeilingGap() && r.Chance(1, 4) {
@@ -771,12 +872,13 @@ func genL3Case(r *vlib.R, n int, emit func(string)) int {
 	vic := 1 + r.Intn(depth) // which level the parent withdraws / re-points
 	V := chainNames[vic-1]
 	deepest := chainNames[depth-1]
+	cdMode := 2 // 0 never, 1 always, 2 sometimes
 	fl := func() string {
 		s := ""
 		if r.Chance(1, 2) {
 			s += " do"
 		}
-		if r.Chance(1, 8) {
+		if cdMode == 1 || (cdMode == 2 && r.Chance(1, 8)) {
 			s += " cd"
 		}
 		return s
@@ -839,8 +941,16 @@ func genL3Case(r *vlib.R, n int, emit func(string)) int {
 		e("l3 q www." + V + " A" + fl())
 	}
 	// just after the lease end (+ slack): the old delegation and everything learned through it is gone
+	cdMode = 0
 	e(fmt.Sprintf("l3 end %s %d", V, int(slack/time.Millisecond)+vlib.Pick(r, []int{1, 200, 1000})))
 	probes()
+	if r.Chance(1, 3) {
+		// the CD=1 lineage (no DS set retained: the lease is the NS TTL)
+		cdMode = 1
+		e(fmt.Sprintf("l3 end %s %d cd", V, int(slack/time.Millisecond)+vlib.Pick(r, []int{1, 200, 1000})))
+		probes()
+	}
+	cdMode = 2
 	hot(r.Intn(2))
 	switch r.Intn(3) {
 	case 0:
@@ -850,6 +960,5 @@ func genL3Case(r *vlib.R, n int, emit func(string)) int {
 		e("l3 adv 43200000")
 		probes()
 	}
-	_ = net.IPv4zero
 	return cnt
 }
